@@ -68,6 +68,27 @@ def tryFinally (F : Nat) (parts : TryParts) (env d : Nat) (r : Res Val) (st : St
       | (.oof, st) => (.oof, st)
       | (_, st) => (r, st)
 
+/-- the Stepper prologue of `EVAL`: the flags after the callback, and whether it answered `next` -/
+def stepPrologue (sp : Stepper) (ast : Val) : Stepper × Bool :=
+  if !sp.skip then
+    let cmd := sp.script.headD .noop
+    let sp := { sp with script := sp.script.tail, calls := ast :: sp.calls }
+    match cmd with
+    | .next => ({ sp with skip := true }, true)
+    | .stepIn => ({ sp with skip := false, outing1 := false }, false)
+    | .stepOut => ({ sp with skip := true, outing1 := true }, false)
+    | .noop => (sp, false)
+  else (sp, false)
+
+/-- the deferred flag resets of `EVAL` -/
+def stepEpilogue (hadOuting2 isNext : Bool) (st' : State) : State :=
+  match st'.stepper with
+  | none => st'
+  | some sp' =>
+    let sp' := if hadOuting2 then { sp' with skip := false, outing2 := false } else sp'
+    let sp' := if isNext then { sp' with skip := false } else sp'
+    { st' with stepper := some sp' }
+
 namespace Proofs.EvalBasic
 
 /-! ### arm equations of `evalLoop` -/
@@ -537,3 +558,570 @@ theorem along (hR : StRel R) : ∀ F, Along R F := by
       updateIn_step hR ih, update1_step hR ih, callBuiltin_step hR ih⟩
 
 end along
+
+/-! the same facts in `(f F st …).2` form -/
+namespace Along
+variable {R : State → State → Prop} {F : Nat} (h : Along R F)
+include h
+theorem eval₂ (st env ast d) : R st (LispModel.eval F st env ast d).2 := h.eval rfl
+theorem evalLoop₂ (st env ast d) : R st (LispModel.evalLoop F st env ast d).2 := h.evalLoop rfl
+theorem evalAst₂ (st env ast d) : R st (LispModel.evalAst F st env ast d).2 := h.evalAst rfl
+theorem evalList₂ (st env xs d) : R st (LispModel.evalList F st env xs d).2 := h.evalList rfl
+theorem evalMap₂ (st env xs d) : R st (LispModel.evalMap F st env xs d).2 := h.evalMap rfl
+theorem doForms₂ (st env lst fr kl d) : R st (LispModel.doForms F st env lst fr kl d).2 := h.doForms rfl
+theorem letBinds₂ (st env bs a1 d) : R st (LispModel.letBinds F st env bs a1 d).2 := h.letBinds rfl
+theorem macroexpand₂ (st env ast d) : R st (LispModel.macroexpand F st env ast d).2 := h.macroexpand rfl
+theorem apply₂ (st f args d) : R st (LispModel.apply F st f args d).2 := h.apply rfl
+theorem mapLoop₂ (st f xs d) : R st (LispModel.mapLoop F st f xs d).2 := h.mapLoop rfl
+theorem updateIn₂ (st v p f d) : R st (LispModel.updateIn F st v p f d).2 := h.updateIn rfl
+theorem update1₂ (st v i f d) : R st (LispModel.update1 F st v i f d).2 := h.update1 rfl
+theorem callBuiltin₂ (st n args d) : R st (LispModel.callBuiltin F st n args d).2 := h.callBuiltin rfl
+end Along
+
+/-! ### (b)–(e): the instances -/
+
+theorem set_trace (s : State) (env k v) : (s.set env k v).trace = s.trace := by
+  unfold State.set; split <;> rfl
+theorem set_ticks (s : State) (env k v) : (s.set env k v).ticks = s.ticks := by
+  unfold State.set; split <;> rfl
+theorem set_cancelAt (s : State) (env k v) : (s.set env k v).cancelAt = s.cancelAt := by
+  unfold State.set; split <;> rfl
+theorem set_stepper (s : State) (env k v) : (s.set env k v).stepper = s.stepper := by
+  unfold State.set; split <;> rfl
+theorem set_atoms (s : State) (env k v) : (s.set env k v).atoms = s.atoms := by
+  unfold State.set; split <;> rfl
+
+/-- (b) effects are only appended (the trace is stored most-recent-first) -/
+def TraceSuffix (a b : State) : Prop := ∃ new, b.trace = new ++ a.trace
+
+theorem traceSuffix_rel : StRel TraceSuffix where
+  refl s := ⟨[], rfl⟩
+  trans := by
+    rintro a b c ⟨n1, h1⟩ ⟨n2, h2⟩
+    exact ⟨n2 ++ n1, by rw [h2, h1, List.append_assoc]⟩
+  ticks s := ⟨[], rfl⟩
+  set s env k v := ⟨[], by rw [set_trace]; rfl⟩
+  push s o d := ⟨[], rfl⟩
+  atoms s a := ⟨[], rfl⟩
+  trace s v := ⟨[v], rfl⟩
+  marks s m := ⟨[], rfl⟩
+  stepper s sp sp' _ := ⟨[], rfl⟩
+
+/-- (b) `trace_suffix`, all 13 functions at once: `(trace_suffix F).eval₂ st env ast d :
+    ∃ new, (eval F st env ast d).2.trace = new ++ st.trace`, and so on -/
+theorem trace_suffix (F : Nat) : Along TraceSuffix F := along traceSuffix_rel F
+
+/-- (c) the debugger stays off -/
+def StepperOff (a b : State) : Prop := a.stepper = none → b.stepper = none
+
+theorem stepperOff_rel : StRel StepperOff where
+  refl s := id
+  trans h1 h2 := fun h => h2 (h1 h)
+  ticks s := id
+  set s env k v := by intro h; rw [set_stepper]; exact h
+  push s o d := id
+  atoms s a := id
+  trace s v := id
+  marks s m := id
+  stepper s sp sp' hs := by intro h; rw [hs] at h; cases h
+
+theorem stepper_none_preserved (F : Nat) : Along StepperOff F := along stepperOff_rel F
+
+/-- (c) the cancellation oracle is never written -/
+def SameCancel (a b : State) : Prop := b.cancelAt = a.cancelAt
+
+theorem sameCancel_rel : StRel SameCancel where
+  refl s := rfl
+  trans h1 h2 := by unfold SameCancel at *; rw [h2, h1]
+  ticks s := rfl
+  set s env k v := set_cancelAt ..
+  push s o d := rfl
+  atoms s a := rfl
+  trace s v := rfl
+  marks s m := rfl
+  stepper s sp sp' _ := rfl
+
+theorem cancelAt_preserved (F : Nat) : Along SameCancel F := along sameCancel_rel F
+
+/-- (d) the poll counter only grows -/
+def TicksLe (a b : State) : Prop := a.ticks ≤ b.ticks
+
+theorem ticksLe_rel : StRel TicksLe where
+  refl s := Nat.le_refl _
+  trans h1 h2 := Nat.le_trans h1 h2
+  ticks s := Nat.le_succ _
+  set s env k v := by unfold TicksLe; rw [set_ticks]; exact Nat.le_refl _
+  push s o d := Nat.le_refl _
+  atoms s a := Nat.le_refl _
+  trace s v := Nat.le_refl _
+  marks s m := Nat.le_refl _
+  stepper s sp sp' _ := Nat.le_refl _
+
+theorem ticks_mono (F : Nat) : Along TicksLe F := along ticksLe_rel F
+
+/-- (e) scopes are only pushed or have their `data` updated: the store does not shrink and every
+    existing scope keeps its `outer` link -/
+def ScopesGrow (a b : State) : Prop :=
+  a.scopes.size ≤ b.scopes.size ∧
+  ∀ (i : Nat) (sc : Scope), a.scopes[i]? = some sc → ∃ sc' : Scope, b.scopes[i]? = some sc' ∧ sc'.outer = sc.outer
+
+theorem scopesGrow_refl (s : State) : ScopesGrow s s := ⟨Nat.le_refl _, fun _ sc h => ⟨sc, h, rfl⟩⟩
+
+theorem scopesGrow_of_scopes_eq {a b : State} (h : b.scopes = a.scopes) : ScopesGrow a b := by
+  unfold ScopesGrow; rw [h]; exact scopesGrow_refl a
+
+theorem scopesGrow_rel : StRel ScopesGrow where
+  refl := scopesGrow_refl
+  trans := by
+    rintro a b c ⟨h1, h1'⟩ ⟨h2, h2'⟩
+    refine ⟨Nat.le_trans h1 h2, fun i sc h => ?_⟩
+    obtain ⟨sc1, hb, ho1⟩ := h1' i sc h
+    obtain ⟨sc2, hc, ho2⟩ := h2' i sc1 hb
+    exact ⟨sc2, hc, ho2.trans ho1⟩
+  ticks s := scopesGrow_of_scopes_eq rfl
+  set s env k v := by
+    unfold State.set State.scope?
+    split
+    · exact scopesGrow_refl s
+    · rename_i sc0 hsc
+      refine ⟨by simp, fun i sc h => ?_⟩
+      by_cases hi : env = i
+      · subst hi
+        rw [hsc] at h; cases h
+        have hlt : env < s.scopes.size := by
+          rcases Nat.lt_or_ge env s.scopes.size with hlt | hge
+          · exact hlt
+          · rw [Array.getElem?_eq_none hge] at hsc; cases hsc
+        exact ⟨{ sc0 with data := ainsert k v sc0.data }, by simp [hlt], rfl⟩
+      · exact ⟨sc, by simp [hi, h], rfl⟩
+  push s o d := by
+    refine ⟨by simp, fun i sc h => ⟨sc, ?_, rfl⟩⟩
+    have hlt : i < s.scopes.size := by
+      rcases Nat.lt_or_ge i s.scopes.size with hlt | hge
+      · exact hlt
+      · rw [Array.getElem?_eq_none hge] at h; cases h
+    simp [Array.getElem?_push, Nat.ne_of_lt hlt, h]
+  atoms s a := scopesGrow_of_scopes_eq rfl
+  trace s v := scopesGrow_of_scopes_eq rfl
+  marks s m := scopesGrow_of_scopes_eq rfl
+  stepper s sp sp' _ := scopesGrow_of_scopes_eq rfl
+
+theorem scopes_grow (F : Nat) : Along ScopesGrow F := along scopesGrow_rel F
+
+/-! ### (a) fuel monotonicity -/
+
+/-- the induction predicate: a result of fuel `F` other than `.oof` is also the result of fuel `F+1` -/
+structure Mono (F : Nat) : Prop where
+  eval : ∀ {st env ast d r s}, eval F st env ast d = (r, s) → r ≠ .oof → eval (F+1) st env ast d = (r, s)
+  evalLoop : ∀ {st env ast d r s}, evalLoop F st env ast d = (r, s) → r ≠ .oof → evalLoop (F+1) st env ast d = (r, s)
+  evalAst : ∀ {st env ast d r s}, evalAst F st env ast d = (r, s) → r ≠ .oof → evalAst (F+1) st env ast d = (r, s)
+  evalList : ∀ {st env xs d r s}, evalList F st env xs d = (r, s) → r ≠ .oof → evalList (F+1) st env xs d = (r, s)
+  evalMap : ∀ {st env xs d r s}, evalMap F st env xs d = (r, s) → r ≠ .oof → evalMap (F+1) st env xs d = (r, s)
+  doForms : ∀ {st env lst fr kl d r s}, doForms F st env lst fr kl d = (r, s) → r ≠ .oof → doForms (F+1) st env lst fr kl d = (r, s)
+  letBinds : ∀ {st env bs a1 d r s}, letBinds F st env bs a1 d = (r, s) → r ≠ .oof → letBinds (F+1) st env bs a1 d = (r, s)
+  macroexpand : ∀ {st env ast d r s}, macroexpand F st env ast d = (r, s) → r ≠ .oof → macroexpand (F+1) st env ast d = (r, s)
+  apply : ∀ {st f args d r s}, apply F st f args d = (r, s) → r ≠ .oof → apply (F+1) st f args d = (r, s)
+  mapLoop : ∀ {st f xs d r s}, mapLoop F st f xs d = (r, s) → r ≠ .oof → mapLoop (F+1) st f xs d = (r, s)
+  updateIn : ∀ {st v p f d r s}, updateIn F st v p f d = (r, s) → r ≠ .oof → updateIn (F+1) st v p f d = (r, s)
+  update1 : ∀ {st v i f d r s}, update1 F st v i f d = (r, s) → r ≠ .oof → update1 (F+1) st v i f d = (r, s)
+  callBuiltin : ∀ {st n args d r s}, callBuiltin F st n args d = (r, s) → r ≠ .oof → callBuiltin (F+1) st n args d = (r, s)
+
+namespace Mono
+variable {F : Nat} (h : Mono F)
+include h
+theorem eval' {st env ast d} (hne : (LispModel.eval F st env ast d).1 ≠ .oof) :
+    LispModel.eval (F+1) st env ast d = LispModel.eval F st env ast d := h.eval rfl hne
+theorem evalLoop' {st env ast d} (hne : (LispModel.evalLoop F st env ast d).1 ≠ .oof) :
+    LispModel.evalLoop (F+1) st env ast d = LispModel.evalLoop F st env ast d := h.evalLoop rfl hne
+theorem evalAst' {st env ast d} (hne : (LispModel.evalAst F st env ast d).1 ≠ .oof) :
+    LispModel.evalAst (F+1) st env ast d = LispModel.evalAst F st env ast d := h.evalAst rfl hne
+theorem evalList' {st env xs d} (hne : (LispModel.evalList F st env xs d).1 ≠ .oof) :
+    LispModel.evalList (F+1) st env xs d = LispModel.evalList F st env xs d := h.evalList rfl hne
+theorem evalMap' {st env xs d} (hne : (LispModel.evalMap F st env xs d).1 ≠ .oof) :
+    LispModel.evalMap (F+1) st env xs d = LispModel.evalMap F st env xs d := h.evalMap rfl hne
+theorem doForms' {st env lst fr kl d} (hne : (LispModel.doForms F st env lst fr kl d).1 ≠ .oof) :
+    LispModel.doForms (F+1) st env lst fr kl d = LispModel.doForms F st env lst fr kl d := h.doForms rfl hne
+theorem letBinds' {st env bs a1 d} (hne : (LispModel.letBinds F st env bs a1 d).1 ≠ .oof) :
+    LispModel.letBinds (F+1) st env bs a1 d = LispModel.letBinds F st env bs a1 d := h.letBinds rfl hne
+theorem macroexpand' {st env ast d} (hne : (LispModel.macroexpand F st env ast d).1 ≠ .oof) :
+    LispModel.macroexpand (F+1) st env ast d = LispModel.macroexpand F st env ast d := h.macroexpand rfl hne
+theorem apply' {st f args d} (hne : (LispModel.apply F st f args d).1 ≠ .oof) :
+    LispModel.apply (F+1) st f args d = LispModel.apply F st f args d := h.apply rfl hne
+theorem mapLoop' {st f xs d} (hne : (LispModel.mapLoop F st f xs d).1 ≠ .oof) :
+    LispModel.mapLoop (F+1) st f xs d = LispModel.mapLoop F st f xs d := h.mapLoop rfl hne
+theorem updateIn' {st v p f d} (hne : (LispModel.updateIn F st v p f d).1 ≠ .oof) :
+    LispModel.updateIn (F+1) st v p f d = LispModel.updateIn F st v p f d := h.updateIn rfl hne
+theorem update1' {st v i f d} (hne : (LispModel.update1 F st v i f d).1 ≠ .oof) :
+    LispModel.update1 (F+1) st v i f d = LispModel.update1 F st v i f d := h.update1 rfl hne
+theorem callBuiltin' {st n args d} (hne : (LispModel.callBuiltin F st n args d).1 ≠ .oof) :
+    LispModel.callBuiltin (F+1) st n args d = LispModel.callBuiltin F st n args d := h.callBuiltin rfl hne
+end Mono
+
+section mono
+
+/-- leaf of a fuel-monotonicity step: lift every recursive call recorded in the context -/
+local macro "mono_leaf" ih:ident hne:ident : tactic => `(tactic|
+  first
+  | rfl
+  | (exfalso; exact $hne rfl)
+  | (simp only [Mono.eval' $ih, Mono.evalLoop' $ih, Mono.evalAst' $ih, Mono.evalList' $ih, Mono.evalMap' $ih,
+      Mono.doForms' $ih, Mono.letBinds' $ih, Mono.macroexpand' $ih, Mono.apply' $ih, Mono.mapLoop' $ih,
+      Mono.updateIn' $ih, Mono.update1' $ih, Mono.callBuiltin' $ih,
+      *, ne_eq, reduceCtorEq, not_false_eq_true, ↓reduceIte]; done)
+  | (simp only [Mono.eval' $ih, Mono.evalLoop' $ih, Mono.evalAst' $ih, Mono.evalList' $ih, Mono.evalMap' $ih,
+      Mono.doForms' $ih, Mono.letBinds' $ih, Mono.macroexpand' $ih, Mono.apply' $ih, Mono.mapLoop' $ih,
+      Mono.updateIn' $ih, Mono.update1' $ih, Mono.callBuiltin' $ih,
+      *, ne_eq, reduceCtorEq, not_false_eq_true, ↓reduceIte]
+     split <;> first | rfl | (exfalso; simp_all; done)))
+
+local macro "mono_tac" h:ident ih:ident hne:ident : tactic => `(tactic|
+  ((repeat' split at $h:ident) <;> (try cases $h:ident) <;> (try simp only [imp_false] at *) <;> mono_leaf $ih $hne))
+
+theorem evalList_mono {F} (ih : Mono F) {st env xs d r s}
+    (h : evalList (F+1) st env xs d = (r, s)) (hne : r ≠ .oof) : evalList (F+1+1) st env xs d = (r, s) := by
+  cases xs with
+  | nil => rw [evalList.eq_2] at h ⊢; exact h
+  | cons x xs =>
+    rw [evalList.eq_3] at h ⊢
+    mono_tac h ih hne
+
+theorem evalMap_mono {F} (ih : Mono F) {st env xs d r s}
+    (h : evalMap (F+1) st env xs d = (r, s)) (hne : r ≠ .oof) : evalMap (F+1+1) st env xs d = (r, s) := by
+  cases xs with
+  | nil => rw [evalMap.eq_2] at h ⊢; exact h
+  | cons x xs =>
+    obtain ⟨k, x⟩ := x
+    rw [evalMap.eq_3] at h ⊢
+    mono_tac h ih hne
+
+theorem mapLoop_mono {F} (ih : Mono F) {st f xs d r s}
+    (h : mapLoop (F+1) st f xs d = (r, s)) (hne : r ≠ .oof) : mapLoop (F+1+1) st f xs d = (r, s) := by
+  cases xs with
+  | nil => rw [mapLoop.eq_2] at h ⊢; exact h
+  | cons x xs =>
+    rw [mapLoop.eq_3] at h ⊢
+    mono_tac h ih hne
+
+theorem evalAst_mono {F} (ih : Mono F) {st env ast d r s}
+    (h : evalAst (F+1) st env ast d = (r, s)) (hne : r ≠ .oof) : evalAst (F+1+1) st env ast d = (r, s) := by
+  cases ast <;> simp only [evalAst] at h ⊢ <;> mono_tac h ih hne
+
+theorem letBinds_mono {F} (ih : Mono F) {st env bs a1 d r s}
+    (h : letBinds (F+1) st env bs a1 d = (r, s)) (hne : r ≠ .oof) : letBinds (F+1+1) st env bs a1 d = (r, s) := by
+  match bs with
+  | [] => rw [letBinds.eq_2] at h ⊢; exact h
+  | [_] => rw [letBinds.eq_3] at h ⊢; exact h
+  | b :: x :: rest => unfold letBinds at h ⊢; mono_tac h ih hne
+
+theorem macroexpand_mono {F} (ih : Mono F) {st env ast d r s}
+    (h : macroexpand (F+1) st env ast d = (r, s)) (hne : r ≠ .oof) : macroexpand (F+1+1) st env ast d = (r, s) := by
+  unfold macroexpand at h ⊢; dsimp only [State.newScope] at h ⊢; mono_tac h ih hne
+
+theorem apply_mono {F} (ih : Mono F) {st f args d r s}
+    (h : apply (F+1) st f args d = (r, s)) (hne : r ≠ .oof) : apply (F+1+1) st f args d = (r, s) := by
+  unfold apply at h ⊢; dsimp only [State.newScope] at h ⊢; mono_tac h ih hne
+
+theorem update1_mono {F} (ih : Mono F) {st v i f d r s}
+    (h : update1 (F+1) st v i f d = (r, s)) (hne : r ≠ .oof) : update1 (F+1+1) st v i f d = (r, s) := by
+  unfold update1 at h ⊢; dsimp only at h ⊢; mono_tac h ih hne
+
+
+theorem doForms_mono {F} (ih : Mono F) {st env lst fr kl d r s}
+    (h : doForms (F+1) st env lst fr kl d = (r, s)) (hne : r ≠ .oof) : doForms (F+1+1) st env lst fr kl d = (r, s) := by
+  unfold doForms at h ⊢; dsimp only at h ⊢
+  split at h
+  · rw [if_pos ‹_›]; exact h
+  · rw [if_neg ‹_›]
+    rcases hx : evalList F st env (if kl = true then (List.drop fr lst).dropLast else List.drop fr lst) d with ⟨rx, sx⟩
+    rw [hx] at h
+    have hrx : rx ≠ .oof := by
+      intro hc; subst hc; dsimp only at h; apply hne
+      (repeat' split at h) <;> cases h <;> rfl
+    rw [ih.evalList hx hrx]; exact h
+
+theorem updateIn_mono {F} (ih : Mono F) {st v p f d r s}
+    (h : updateIn (F+1) st v p f d = (r, s)) (hne : r ≠ .oof) : updateIn (F+1+1) st v p f d = (r, s) := by
+  match p with
+  | [] => rw [updateIn.eq_2] at h ⊢; exact h
+  | [i] => rw [updateIn.eq_3] at h ⊢; exact ih.update1 h hne
+  | i :: j :: rest => unfold updateIn at h ⊢; dsimp only at h ⊢; mono_tac h ih hne
+
+theorem callBuiltin_mono {F} (ih : Mono F) {st n args d r s}
+    (h : callBuiltin (F+1) st n args d = (r, s)) (hne : r ≠ .oof) : callBuiltin (F+1+1) st n args d = (r, s) := by
+  unfold callBuiltin at h ⊢; dsimp only [State.newAtom] at h ⊢
+  by_cases hn : n = "trace!"
+  · rw [if_pos hn] at h ⊢; mono_tac h ih hne
+  rw [if_neg hn] at h ⊢; clear hn
+  by_cases hn : n = "depth!"
+  · rw [if_pos hn] at h ⊢; mono_tac h ih hne
+  rw [if_neg hn] at h ⊢; clear hn
+  by_cases hn : n = "eval"
+  · rw [if_pos hn] at h ⊢; mono_tac h ih hne
+  rw [if_neg hn] at h ⊢; clear hn
+  by_cases hn : n = "apply"
+  · rw [if_pos hn] at h ⊢; mono_tac h ih hne
+  rw [if_neg hn] at h ⊢; clear hn
+  by_cases hn : n = "map"
+  · rw [if_pos hn] at h ⊢; mono_tac h ih hne
+  rw [if_neg hn] at h ⊢; clear hn
+  by_cases hn : n = "atom"
+  · rw [if_pos hn] at h ⊢; mono_tac h ih hne
+  rw [if_neg hn] at h ⊢; clear hn
+  by_cases hn : n = "deref"
+  · rw [if_pos hn] at h ⊢; mono_tac h ih hne
+  rw [if_neg hn] at h ⊢; clear hn
+  by_cases hn : n = "reset!"
+  · rw [if_pos hn] at h ⊢; mono_tac h ih hne
+  rw [if_neg hn] at h ⊢; clear hn
+  by_cases hn : n = "swap!"
+  · rw [if_pos hn] at h ⊢; mono_tac h ih hne
+  rw [if_neg hn] at h ⊢; clear hn
+  by_cases hn : n = "update"
+  · rw [if_pos hn] at h ⊢; mono_tac h ih hne
+  rw [if_neg hn] at h ⊢; clear hn
+  by_cases hn : n = "update-in"
+  · rw [if_pos hn] at h ⊢; mono_tac h ih hne
+  rw [if_neg hn] at h ⊢; clear hn
+  exact h
+
+theorem eval_stepper_none {F st env ast d} (hs : st.stepper = none) :
+    eval (F+1) st env ast d = evalLoop F st env ast d := by
+  unfold eval; simp only [hs]
+
+theorem eval_stepper_some {F st env ast d sp} (hs : st.stepper = some sp) :
+    eval (F+1) st env ast d =
+      ((evalLoop F { st with stepper := some (stepPrologue sp ast).1 } env ast d).1,
+       stepEpilogue (stepPrologue sp ast).1.outing2 (stepPrologue sp ast).2
+         (evalLoop F { st with stepper := some (stepPrologue sp ast).1 } env ast d).2) := by
+  unfold eval; simp only [hs]; rfl
+
+theorem eval_mono {F} (ih : Mono F) {st env ast d r s}
+    (h : eval (F+1) st env ast d = (r, s)) (hne : r ≠ .oof) : eval (F+1+1) st env ast d = (r, s) := by
+  cases hs : st.stepper with
+  | none => rw [eval_stepper_none hs] at h ⊢; exact ih.evalLoop h hne
+  | some sp =>
+    rw [eval_stepper_some hs] at h ⊢
+    rcases hx : evalLoop F { st with stepper := some (stepPrologue sp ast).1 } env ast d with ⟨rx, sx⟩
+    rw [hx] at h
+    have : rx = r := congrArg Prod.fst h
+    rw [ih.evalLoop hx (this ▸ hne)]; exact h
+
+theorem tryCatch_mono {F} (ih : Mono F) {parts env d rb sb r s}
+    (h : tryCatch F parts env d rb sb = (r, s)) (hne : r ≠ .oof) : tryCatch (F+1) parts env d rb sb = (r, s) := by
+  unfold tryCatch at h ⊢; dsimp only [State.newScope] at h ⊢; mono_tac h ih hne
+
+theorem tryFinally_oof {F parts env d sb} : tryFinally F parts env d .oof sb = (.oof, sb) := by
+  unfold tryFinally; rfl
+
+theorem tryFinally_mono {F} (ih : Mono F) {parts env d rb sb r s}
+    (h : tryFinally F parts env d rb sb = (r, s)) (hne : r ≠ .oof) : tryFinally (F+1) parts env d rb sb = (r, s) := by
+  cases rb with
+  | oof => rw [tryFinally_oof] at h; cases h; exact absurd rfl hne
+  | ok v => unfold tryFinally at h ⊢; dsimp only at h ⊢; mono_tac h ih hne
+  | err e => unfold tryFinally at h ⊢; dsimp only at h ⊢; mono_tac h ih hne
+
+theorem tryCatch_oof {F parts env d sb} : tryCatch F parts env d .oof sb = (.oof, sb) := by
+  unfold tryCatch; rfl
+
+theorem evalLoop_mono {F} (ih : Mono F) {st env ast d r s}
+    (h : evalLoop (F+1) st env ast d = (r, s)) (hne : r ≠ .oof) : evalLoop (F+1+1) st env ast d = (r, s) := by
+  rcases hp : st.poll with ⟨dn, s0⟩
+  cases dn with
+  | true => rw [evalLoop_timeout hp] at h ⊢; exact h
+  | false =>
+    by_cases hl : ∃ xs p, ast = .list xs p
+    case neg =>
+      rw [evalLoop_nonlist hp (fun xs p hc => hl ⟨xs, p, hc⟩)] at h ⊢; exact ih.evalAst h hne
+    obtain ⟨xs, p, rfl⟩ := hl
+    rcases hm : macroexpand F s0 env (.list xs p) d with ⟨rm, s1⟩
+    cases rm with
+    | oof => rw [evalLoop_mac_oof hp hm] at h; cases h; exact absurd rfl hne
+    | err e =>
+      have hm' := ih.macroexpand hm (by simp)
+      rw [evalLoop_mac_err hp hm] at h; rw [evalLoop_mac_err hp hm']; exact h
+    | ok ast' =>
+      have hm' := ih.macroexpand hm (by simp)
+      by_cases hl' : ∃ xs p, ast' = .list xs p
+      case neg =>
+        rw [evalLoop_mac_nonlist hp hm (fun xs p hc => hl' ⟨xs, p, hc⟩)] at h
+        rw [evalLoop_mac_nonlist hp hm' (fun xs p hc => hl' ⟨xs, p, hc⟩)]; exact ih.evalAst h hne
+      obtain ⟨ys, p', rfl⟩ := hl'
+      cases ys with
+      | nil => rw [evalLoop_mac_empty hp hm] at h; rw [evalLoop_mac_empty hp hm']; exact h
+      | cons a0 ops =>
+        by_cases h_def : a0sym a0 = "def"
+        · rw [evalLoop_def hp hm h_def] at h; rw [evalLoop_def hp hm' h_def]
+          mono_tac h ih hne
+        by_cases h_let : a0sym a0 = "let"
+        · rw [evalLoop_let hp hm h_let] at h; rw [evalLoop_let hp hm' h_let]
+          simp only [continueWith] at h ⊢
+          mono_tac h ih hne
+        by_cases h_quote : a0sym a0 = "quote"
+        · rw [evalLoop_quote hp hm h_quote] at h; rw [evalLoop_quote hp hm' h_quote]
+          mono_tac h ih hne
+        by_cases h_quasiquoteexpand : a0sym a0 = "quasiquoteexpand"
+        · rw [evalLoop_quasiquoteexpand hp hm h_quasiquoteexpand] at h; rw [evalLoop_quasiquoteexpand hp hm' h_quasiquoteexpand]
+          mono_tac h ih hne
+        by_cases h_quasiquote : a0sym a0 = "quasiquote"
+        · rw [evalLoop_quasiquote hp hm h_quasiquote] at h; rw [evalLoop_quasiquote hp hm' h_quasiquote]
+          simp only [continueWith] at h ⊢
+          mono_tac h ih hne
+        by_cases h_defmacro : a0sym a0 = "defmacro"
+        · rw [evalLoop_defmacro hp hm h_defmacro] at h; rw [evalLoop_defmacro hp hm' h_defmacro]
+          mono_tac h ih hne
+        by_cases h_macroexpand : a0sym a0 = "macroexpand"
+        · rw [evalLoop_macroexpand hp hm h_macroexpand] at h; rw [evalLoop_macroexpand hp hm' h_macroexpand]
+          mono_tac h ih hne
+        by_cases h_try : a0sym a0 = "try"
+        · rw [evalLoop_try hp hm h_try] at h; rw [evalLoop_try hp hm' h_try]
+          split at h
+          · rw [if_pos ‹_›]; exact h
+          rw [if_neg ‹_›]
+          split at h
+          · exact h
+          rename_i parts hst
+          rcases hb : doForms F s1 env parts.body 0 false d with ⟨rb, sb⟩
+          rw [hb] at h; dsimp only at h
+          rcases hc : tryCatch F parts env d rb sb with ⟨rc, sc⟩
+          rw [hc] at h; dsimp only at h
+          have hrc : rc ≠ .oof := by
+            intro hx; subst hx; rw [tryFinally_oof] at h; cases h; exact hne rfl
+          have hrb : rb ≠ .oof := by
+            intro hx; subst hx; rw [tryCatch_oof] at hc; cases hc; exact hrc rfl
+          rw [ih.doForms hb hrb]; dsimp only
+          rw [tryCatch_mono ih hc hrc]; exact tryFinally_mono ih h hne
+        by_cases h_do : a0sym a0 = "do"
+        · rw [evalLoop_do hp hm h_do] at h; rw [evalLoop_do hp hm' h_do]
+          simp only [continueWith] at h ⊢
+          mono_tac h ih hne
+        by_cases h_if : a0sym a0 = "if"
+        · rw [evalLoop_if hp hm h_if] at h; rw [evalLoop_if hp hm' h_if]
+          simp only [continueWith] at h ⊢
+          mono_tac h ih hne
+        by_cases h_fn : a0sym a0 = "fn"
+        · rw [evalLoop_fn hp hm h_fn] at h; rw [evalLoop_fn hp hm' h_fn]
+          mono_tac h ih hne
+        have ha : a0sym a0 ∉ specialForms := by
+          simp only [specialForms, List.mem_cons, List.not_mem_nil, or_false, not_or]
+          exact ⟨h_def, h_let, h_quote, h_quasiquoteexpand, h_quasiquote, h_defmacro, h_macroexpand, h_try, h_do, h_if, h_fn⟩
+        rw [evalLoop_app hp hm ha] at h; rw [evalLoop_app hp hm' ha]
+        simp only [continueWith] at h ⊢
+        mono_tac h ih hne
+
+
+/-- (a) `fuel_mono`, all 13 functions at once: a result other than `.oof` obtained with fuel `F` is the
+    result (value and state) with fuel `F+1` -/
+theorem fuel_mono : ∀ F, Mono F := by
+  intro F
+  induction F with
+  | zero =>
+    constructor <;> intros <;> rename_i h hne <;> exfalso <;> apply hne
+    · rw [eval.eq_1] at h; cases h; rfl
+    · rw [evalLoop.eq_1] at h; cases h; rfl
+    · unfold evalAst at h; cases h; rfl
+    · rw [evalList.eq_1] at h; cases h; rfl
+    · rw [evalMap.eq_1] at h; cases h; rfl
+    · rw [doForms.eq_1] at h; cases h; rfl
+    · unfold letBinds at h; cases h; rfl
+    · unfold macroexpand at h; cases h; rfl
+    · unfold apply at h; cases h; rfl
+    · rw [mapLoop.eq_1] at h; cases h; rfl
+    · unfold updateIn at h; cases h; rfl
+    · unfold update1 at h; cases h; rfl
+    · unfold callBuiltin at h; cases h; rfl
+  | succ F ih =>
+    exact ⟨eval_mono ih, evalLoop_mono ih, evalAst_mono ih, evalList_mono ih, evalMap_mono ih,
+      doForms_mono ih, letBinds_mono ih, macroexpand_mono ih, apply_mono ih, mapLoop_mono ih,
+      updateIn_mono ih, update1_mono ih, callBuiltin_mono ih⟩
+
+end mono
+
+/-! corollaries for `F ≤ F'` -/
+
+theorem eval_fuel_le {F F' : Nat} (hle : F ≤ F') {st env ast d r s} (h : eval F st env ast d = (r, s)) (hne : r ≠ .oof) :
+    eval F' st env ast d = (r, s) := by
+  induction hle with
+  | refl => exact h
+  | step _ ih => exact (fuel_mono _).eval ih hne
+
+theorem evalLoop_fuel_le {F F' : Nat} (hle : F ≤ F') {st env ast d r s} (h : evalLoop F st env ast d = (r, s)) (hne : r ≠ .oof) :
+    evalLoop F' st env ast d = (r, s) := by
+  induction hle with
+  | refl => exact h
+  | step _ ih => exact (fuel_mono _).evalLoop ih hne
+
+theorem evalAst_fuel_le {F F' : Nat} (hle : F ≤ F') {st env ast d r s} (h : evalAst F st env ast d = (r, s)) (hne : r ≠ .oof) :
+    evalAst F' st env ast d = (r, s) := by
+  induction hle with
+  | refl => exact h
+  | step _ ih => exact (fuel_mono _).evalAst ih hne
+
+theorem evalList_fuel_le {F F' : Nat} (hle : F ≤ F') {st env xs d r s} (h : evalList F st env xs d = (r, s)) (hne : r ≠ .oof) :
+    evalList F' st env xs d = (r, s) := by
+  induction hle with
+  | refl => exact h
+  | step _ ih => exact (fuel_mono _).evalList ih hne
+
+theorem evalMap_fuel_le {F F' : Nat} (hle : F ≤ F') {st env xs d r s} (h : evalMap F st env xs d = (r, s)) (hne : r ≠ .oof) :
+    evalMap F' st env xs d = (r, s) := by
+  induction hle with
+  | refl => exact h
+  | step _ ih => exact (fuel_mono _).evalMap ih hne
+
+theorem doForms_fuel_le {F F' : Nat} (hle : F ≤ F') {st env lst fr kl d r s} (h : doForms F st env lst fr kl d = (r, s)) (hne : r ≠ .oof) :
+    doForms F' st env lst fr kl d = (r, s) := by
+  induction hle with
+  | refl => exact h
+  | step _ ih => exact (fuel_mono _).doForms ih hne
+
+theorem letBinds_fuel_le {F F' : Nat} (hle : F ≤ F') {st env bs a1 d r s} (h : letBinds F st env bs a1 d = (r, s)) (hne : r ≠ .oof) :
+    letBinds F' st env bs a1 d = (r, s) := by
+  induction hle with
+  | refl => exact h
+  | step _ ih => exact (fuel_mono _).letBinds ih hne
+
+theorem macroexpand_fuel_le {F F' : Nat} (hle : F ≤ F') {st env ast d r s} (h : macroexpand F st env ast d = (r, s)) (hne : r ≠ .oof) :
+    macroexpand F' st env ast d = (r, s) := by
+  induction hle with
+  | refl => exact h
+  | step _ ih => exact (fuel_mono _).macroexpand ih hne
+
+theorem apply_fuel_le {F F' : Nat} (hle : F ≤ F') {st f args d r s} (h : apply F st f args d = (r, s)) (hne : r ≠ .oof) :
+    apply F' st f args d = (r, s) := by
+  induction hle with
+  | refl => exact h
+  | step _ ih => exact (fuel_mono _).apply ih hne
+
+theorem mapLoop_fuel_le {F F' : Nat} (hle : F ≤ F') {st f xs d r s} (h : mapLoop F st f xs d = (r, s)) (hne : r ≠ .oof) :
+    mapLoop F' st f xs d = (r, s) := by
+  induction hle with
+  | refl => exact h
+  | step _ ih => exact (fuel_mono _).mapLoop ih hne
+
+theorem updateIn_fuel_le {F F' : Nat} (hle : F ≤ F') {st v p f d r s} (h : updateIn F st v p f d = (r, s)) (hne : r ≠ .oof) :
+    updateIn F' st v p f d = (r, s) := by
+  induction hle with
+  | refl => exact h
+  | step _ ih => exact (fuel_mono _).updateIn ih hne
+
+theorem update1_fuel_le {F F' : Nat} (hle : F ≤ F') {st v i f d r s} (h : update1 F st v i f d = (r, s)) (hne : r ≠ .oof) :
+    update1 F' st v i f d = (r, s) := by
+  induction hle with
+  | refl => exact h
+  | step _ ih => exact (fuel_mono _).update1 ih hne
+
+theorem callBuiltin_fuel_le {F F' : Nat} (hle : F ≤ F') {st n args d r s} (h : callBuiltin F st n args d = (r, s)) (hne : r ≠ .oof) :
+    callBuiltin F' st n args d = (r, s) := by
+  induction hle with
+  | refl => exact h
+  | step _ ih => exact (fuel_mono _).callBuiltin ih hne
+
+/-- two runs of `eval` that both finish agree (determinism in the fuel) -/
+theorem eval_fuel_agree {F F' : Nat} {st env ast d r s r' s'} (h : eval F st env ast d = (r, s)) (hne : r ≠ .oof)
+    (h' : eval F' st env ast d = (r', s')) (hne' : r' ≠ .oof) : r = r' ∧ s = s' := by
+  rcases Nat.le_total F F' with hle | hle
+  · have := eval_fuel_le hle h hne; rw [h'] at this; cases this; exact ⟨rfl, rfl⟩
+  · have := eval_fuel_le hle h' hne'; rw [h] at this; cases this; exact ⟨rfl, rfl⟩
+
+end Proofs.EvalBasic
+end LispModel
